@@ -203,7 +203,7 @@ FAULT_PATTERNS = (None, 'create:all', 'create:round0', 'create:round1-2', 'creat
 
 
 def writer_case(arg):
-  inject_at, on_shutdown, failing = (tuple(arg) + (None,))[:3]
+  inject_at, on_shutdown, failing, spelling = (tuple(arg) + (None, None))[:4]
   settings = env.boot()
   env.private_conf()
   env.reset_state()
@@ -225,6 +225,21 @@ def writer_case(arg):
     if on_shutdown is not None:
       settings['MAX_UPDATES_PER_SECOND_ON_SHUTDOWN'] = on_shutdown
     env.apply_daemon_cache_limits(settings)
+    if spelling:
+      # the same limits as the daemon's real start-up leaves them when they are written in a [cache:<instance>] section that
+      # overrides more generous ones in [cache]: EVERY setting the start-up produced is carried over (also ones this harness
+      # has never heard of), then the writer module builds its buckets from them as it does at import
+      from .. import daemonconf
+      over = {'MAX_UPDATES_PER_SECOND': '2', 'MAX_CREATES_PER_MINUTE': '2'}
+      if on_shutdown is not None:
+        over['MAX_UPDATES_PER_SECOND_ON_SHUTDOWN'] = repr(on_shutdown)
+      base = {'MAX_UPDATES_PER_SECOND': '500', 'MAX_CREATES_PER_MINUTE': '600'} if spelling == 'instance-over-larger' else {}
+      full = daemonconf.full_settings('carbon-cache', base, over, 'b')
+      for k, v in full.items():
+        settings[k] = daemonconf._dec(v) if isinstance(v, str) else v
+      if settings['MAX_UPDATES_PER_SECOND'] != 2 or settings['MAX_CREATES_PER_MINUTE'] != 2:
+        bad.append(('writer-rate-exceeded:config', 'start-up with [cache:b] MAX_UPDATES_PER_SECOND=2 MAX_CREATES_PER_MINUTE=2 over %r yields %r / %r' % (
+          base, settings['MAX_UPDATES_PER_SECOND'], settings['MAX_CREATES_PER_MINUTE']), {'spelling': spelling}))
     import carbon.writer
     importlib.reload(carbon.writer)
 
@@ -271,7 +286,7 @@ def writer_case(arg):
         if v:
           bad.append(('writer-rate-exceeded:' + op, 'backend %s calls: %s (shutdown change injected before backend call %r, '
                       'MAX_UPDATES_PER_SECOND_ON_SHUTDOWN=%r, failing backend calls: %r)' % (op, v, inject_at, on_shutdown, failing),
-                      {'inject_at': inject_at, 'on_shutdown': on_shutdown, 'failing': failing}))
+                      {'inject_at': inject_at, 'on_shutdown': on_shutdown, 'failing': failing, 'spelling': spelling}))
           break
     nw = sum(1 for e in db.log if e[0] == 'write')
     ncr = sum(1 for e in db.log if e[0] == 'create')
@@ -301,6 +316,7 @@ def run(ctx):
       ctx.violation(key, what, {'config': cfg[0], 'history': hist})
   wtasks = [(i, s, None) for s in (None, 10) for i in ([None] + list(range(0, 40)))]
   wtasks += [(i, s, f) for f in FAULT_PATTERNS[1:] for s in (None, 10) for i in (None, 0, 3, 7)]
+  wtasks += [(i, s, None, sp) for sp in ('instance-over-larger', 'instance-only') for s in (None, 10) for i in (None, 2)]
   wres = core.pmap(writer_case, wtasks, fresh=True)
   wcalls = wfaults = 0
   for st, bad in wres:
@@ -330,7 +346,7 @@ def replay(path):
     if not bad:
       print('oracle: holds')
     return 1 if bad else 0
-  st, bad = writer_case((rep['inject_at'], rep['on_shutdown'], rep.get('failing')))
+  st, bad = writer_case((rep['inject_at'], rep['on_shutdown'], rep.get('failing'), rep.get('spelling')))
   for key, what, _r in bad:
     print('oracle: [%s] %s' % (key, what))
   return 1 if bad else 0
